@@ -37,7 +37,7 @@ CLAIMED = {
                      "counter overflow; B2 (Verus): literals header capped, no-sequence path bounded; H1 (Kani, all 2^24 headers): raw/RLE blocks <= 128 KiB; "
                      "FD1 (Kani, bounded): the byte budget is checked after every block; D2: window drains keep min(len, window); H4: window <= limit before "
                      "the window reservation. The arithmetic composition is in DESIGN.md.", "DESIGN.md 4 C05"),
-    "C06": ("proof", "D1/D2 (Kani, real ring buffer at fixed capacities, arbitrary invariant start state, symbolic sink behaviour incl. partial acceptance and errors): "
+    "C06": ("other", "BOUNDED contract checking on the real code, not a proof for all sizes (hence category 'other'): D1/D2 (Kani, real ring buffer at fixed capacities, arbitrary invariant start state, symbolic sink behaviour incl. partial acceptance and errors): "
             "every drain path hands out a prefix of the queue in order, removes exactly the accepted bytes (also on the error path) and hashes exactly those; "
             "FD1 (Kani, bounded): blocks strictly in order, exact byte accounting, strategy only decides when to return; FD7 accessors; Q3/D0 (Verus): decoding "
             "reads the window only at distance <= offset; SD1 (Kani, bounded script): StreamingDecoder::read serves min(request, available), short reads only at the end "
@@ -45,7 +45,7 @@ CLAIMED = {
     "C07": ("proof", "FD5 (Verus, verbatim bodies, unbounded Vec sizes): DecoderScratch::reset establishes, from ANY prior state, exactly the state DecoderScratch::new "
             "creates; all table reset/reinit functions; FD4 (Kani): FrameDecoder::reset/init install fresh per-frame fields whatever the previous state was "
             "(arbitrary counters, flags, checksum, dictionary use), a rejected header leaves the old state; D2 reset; H4 reuse path.", "DESIGN.md 4 C07"),
-    "C08": ("proof", "D1/D2 (Kani): on every drain path the hasher ends in exactly the state of a fresh XXH64 hasher fed the bytes handed out (state equality, "
+    "C08": ("other", "BOUNDED contract checking on the real code, not a proof for all sizes (hence category 'other'): D1/D2 (Kani, ring capacities 5/9, arbitrary invariant start state): on every drain path the hasher ends in exactly the state of a fresh XXH64 hasher fed the bytes handed out (state equality, "
             "twox-hash as reference), both ring segments, partial acceptance, errors; FD1: stored checksum = the 4 bytes after the last block, little-endian; "
             "FD7: calculated checksum accessor; E5 (bounded): compressor re-seeds per frame, hashes exactly the bytes read, trailer = low 32 bits LE.", "DESIGN.md 4 C08"),
     "C09": ("proof", "FD4 (Kani): dictionary selected by id, missing id is DictNotProvided, frame without id sees no dictionary, force_dict; FD5 (Verus): init_from_dict "
@@ -90,7 +90,7 @@ CLAIMED = {
             "bytes <= maximum window, all match_len bytes equal, and each reported sequence ends where the next starts. The contracts E7V assumes of code outside Verus' "
             "reach are Kani obligations on the real functions (SuffixStore get/insert/contains_key/key: loop-free, 8 slots; common_prefix_len and add_suffixes_till: "
             "bounded lengths). Not covered: MatchGeneratorDriver's pool recycling closures (bounded Kani harnesses in the thorough tier only).", "DESIGN.md 4 C17, Part II 9"),
-    "C18": ("proof", "IO1 (Kani, built with --no-default-features, bounded buffers): the no_std read_exact / Read for &[u8], &mut T, Take / write_all / Write impls "
+    "C18": ("other", "BOUNDED contract checking on the real code, not a proof (hence category 'other'): IO1 (Kani, built with --no-default-features, bounded buffers): the no_std read_exact / Read for &[u8], &mut T, Take / write_all / Write impls "
             "satisfy the documented contracts of the std items they replace (Interrupted retried, EOF -> UnexpectedEof, partial writes, WriteZero equivalent); "
             "E5 under !hash: no flag, no trailer, same blocks. Byte-identity of whole outputs across builds is the substitutability argument in DESIGN.md.", "DESIGN.md 4 C18"),
 }
